@@ -481,7 +481,7 @@ Definition addable (srcnames : list string) (s : stmt) : bool :=
   match s with
   | Import _ => true
   | Class n _ _ _ => negb (str_in n srcnames)
-  | Block "if TYPE_CHECKING"%string body => forallb is_import body
+  | Block head body => String.eqb head "if TYPE_CHECKING" && forallb is_import body
   | _ => false
   end.
 (* greedy alignment of a result against the (annotation-erased) source: keeps the result statements
